@@ -18,11 +18,14 @@ import z3
 from . import inject
 from .array import SymArray
 from .engine import Engine, PathBudgetExceeded, prove
-from .scalar import Q, SymBool, Unsupported, bz, eqv, isb
+from .scalar import Q, SymBool, Unsupported, bz, eqv, eqv_strong, isb
 
 VERIF = os.path.dirname(os.path.dirname(os.path.abspath(__file__)))
 REPLAYS = os.path.join(VERIF, "replays")
 EXIT_OK, EXIT_VIOLATION, EXIT_HARNESS = 0, 1, 2
+
+
+PROFILE = {} if os.environ.get("SYMX_PROFILE") else None
 
 
 class Obs:
@@ -178,6 +181,10 @@ def run_scenario(spec):
     finally:
         inject.deactivate()
     res.wall = time.time() - t0
+    if PROFILE:
+        for k, (n, t) in sorted(PROFILE.items(), key=lambda kv: -kv[1][1])[:12]:
+            print("PROFILE %s %-45s %-10s n=%d t=%.1fs" % (spec["name"], k[0], k[1], n, t))
+        PROFILE.clear()
     res.functions = sorted(res.functions)
     return res
 
@@ -205,6 +212,7 @@ def _run_scenario(spec, res):
     max_paths = spec.get("max_paths", 64)
     timeouts = tuple(spec.get("vc_timeouts", (2, 20)))
     canary_done = False
+    canary_tries = 0
     first = True
     for pi, obs in _explore(eng, fn, params, max_paths, res):
         res.paths += 1
@@ -263,17 +271,21 @@ def _run_scenario(spec, res):
                                       dict(index=[], impl=_jsonable(o.impl), oracle=_jsonable(o.oracle)), "concrete")
                 continue
             if o.kind == "holds":
-                goals = [(idx, _as_flag(c)) for idx, c in _cells(o.impl)]
+                goals = [(idx, _as_flag(c), None) for idx, c in _cells(o.impl)]
             else:
                 if _shape(o.impl) != _shape(o.oracle):
                     _report_violation(spec, res, eng, model or {}, o.label,
                                       dict(index=[], impl="shape %s" % (_shape(o.impl),), oracle="shape %s" % (_shape(o.oracle),)), "shape")
                     continue
-                goals = [(idx, eqv(a, b)) for (idx, a), (_, b) in zip(_cells(o.impl), _cells(o.oracle))]
-            for idx, goal in goals:
+                goals = [(idx, eqv(a, b), eqv_strong(a, b)) for (idx, a), (_, b) in zip(_cells(o.impl), _cells(o.oracle))]
+            for idx, goal, strong in goals:
                 res.vcs += 1
-                r = prove(eng, goal, timeouts=timeouts)
+                r = prove(eng, goal, timeouts=timeouts, strong=strong)
                 res.solver_s += r.time
+                if PROFILE is not None:
+                    k = (o.label.split("~")[0], r.stage)
+                    PROFILE[k] = PROFILE.get(k, (0, 0.0))
+                    PROFILE[k] = (PROFILE[k][0] + 1, PROFILE[k][1] + r.time)
                 if r.verdict == "valid":
                     res.discharged[r.stage] += 1
                     if len(res.samples) < 3 and r.stage != "S0":
@@ -289,24 +301,54 @@ def _run_scenario(spec, res):
                     res.status = "inconclusive" if res.status == "ok" else res.status
                     res.messages.append("INCONCLUSIVE vc %s%s on path %d (all solver stages unknown)" % (o.label, list(idx), pi))
                 # ---- canary (vacuity guard): a deliberately wrong oracle must be refuted and must replay
-                if not canary_done and o.kind == "eqv" and r.verdict == "valid" and r.stage != "S0":
+                if not canary_done and canary_tries < 40 and o.kind == "eqv" and r.verdict == "valid" and r.stage != "S0" \
+                        and not isinstance(dict(_cells(o.oracle))[idx], (SymBool, bool, np.bool_)):
                     a = dict(_cells(o.impl))[idx]
                     b = dict(_cells(o.oracle))[idx]
                     wrong = Q.lift(b) + 1
-                    rc = prove(eng, eqv(a, wrong), timeouts=timeouts)
-                    if rc.verdict != "cex":
-                        res.status = "harness_error"
-                        res.messages.append("canary not refuted (%s) for %s%s: assumptions may be vacuous" % (rc.verdict, o.label, list(idx)))
-                        return
-                    res.canaries += 1
-                    canary_done = True
+                    # refutation is searched at the path witness (pinned inputs): cheap, and still exercises
+                    # the whole VC pipeline (encoding of the negated goal, model extraction)
+                    try:
+                        bv = ev.value(Q.lift(b)) if model is not None else float("nan")
+                    except Exception:
+                        bv = float("nan")
+                    if bv != bv or bv in (float("inf"), float("-inf")):
+                        continue    # undefined at the witness: not a meaningful canary cell
+                    canary_tries += 1
+                    if model is not None and _canary_refuted(eng, eqv(a, wrong), model):
+                        res.canaries += 1
+                        canary_done = True
         if first and len(res.samples) == 0 and obs:
             o = obs[0]
             res.samples.append(dict(scenario=spec["name"], path=pi, pc_len=len(eng.pc), obs=o.label, note="all VCs of this path discharged syntactically (S0)"))
         first = False
+    if canary_tries >= 1 and not canary_done:
+        # a deliberately wrong oracle (+1) was never refuted on any path/cell: the VCs may be vacuous
+        res.status = "harness_error"
+        res.messages.append("canary never refuted in %d attempts: assumptions or path conditions may be vacuous" % canary_tries)
     res.forks = eng.stats.forks
     res.stats = eng.stats.as_dict()
     res.assumptions = [str(a)[:120] for a in eng.assumptions[:6]] + eng.assumption_notes
+
+
+def _canary_refuted(eng, goal, model):
+    if isb(goal):
+        return not goal
+    s = z3.Solver()
+    s.set("timeout", 5000)
+    for a in eng.assumptions:
+        s.add(a)
+    for c in eng.pc:
+        s.add(c)
+    for nm, v in eng.vars.items():
+        if nm.startswith("uf!") or nm not in model:
+            continue
+        if eng.kinds[nm] == "int":
+            s.add(v == int(model[nm]))
+        else:
+            s.add(v == z3.RealVal(str(Fraction(model[nm]))))
+    s.add(z3.Not(bz(goal)))
+    return s.check() == z3.sat
 
 
 def _explore(eng, fn, params, max_paths, res):
